@@ -78,7 +78,7 @@ def run_traces(ctx, want_sha_equal=True):
         tr = os.path.join(d, rid + ".ndjson")
         _, out, _, _ = C.rvh(["drive-pipeline", "--files", ",".join(files), "--out", agc, "--k", str(p["k"]), "--seg", str(p["seg"]),
                               "--mm", str(p["mm"]), "--threads", str(t), "--cap", str(cap), "--perturb", str(pert), "--trace", tr,
-                              "--id", rid, "--stall-secs", "90"], timeout=1500)
+                              "--id", rid, "--stall-secs", "30"], timeout=1500)
         r = json.loads(out.strip().splitlines()[-1])
         r.update(id=rid, input=name, threads=t, cap=cap, perturb=pert, trace=tr, agc=agc)
         return r
